@@ -104,6 +104,13 @@ def do_op(f, kind, t, km, vm, op):
         return list(f.func("difference", "C")(t, a))
     elif n == "multiunion":
         a, _, _ = build(f, "Set", op[1])
+        if getattr(t, "_p_jar", None) is None:
+            # the operand lives in a database (so that a pin left behind is visible as the sticky state)
+            from harness.minijar import Storage, Jar
+            jar = Jar(Storage())
+            jar.add(t)
+            jar.commit()
+            _keep.append(jar)
         return list(f.func("multiunion", "C")([t, a, list(range(3))]))
     elif n == "merge":
         cls = f.cls("Bucket" if not setlike else "Set", "C")
@@ -178,6 +185,7 @@ def main():
                 if out != "MemoryError":
                     bad = "not-reported:" + out
                 else:
+                    pinned = getattr(t, "_p_state", 0) == 2      # (looked at before anything else touches the container)
                     try:
                         now = contents(t, kind, km, vm)
                         mutating = op[0] in ("insert", "update", "setstate", "iand", "fromBytes", "insert-evicted")
@@ -186,7 +194,9 @@ def main():
                             allowed = True
                         else:
                             allowed = now == before or now == after
-                        if op[0] == "insert-evicted" and kind in ("BTree", "TreeSet"):
+                        if pinned:
+                            bad = "operand-left-pinned:the container is still in the sticky state after the failed call"
+                        if bad is None and op[0] == "insert-evicted" and kind in ("BTree", "TreeSet"):
                             # reference accounting of the NODES: each must own at least the references the loaded
                             # part of the tree holds on it (an over-release would free it while still in the tree)
                             nodes, holders = loaded_nodes_and_holders(t)
